@@ -8,6 +8,7 @@ import (
 	"syscall"
 
 	ike "github.com/free5gc/ike"
+	"github.com/free5gc/ike/eap"
 	"github.com/free5gc/ike/message"
 	"github.com/free5gc/ike/security"
 
@@ -353,6 +354,57 @@ func c20(c *core.Ctx) {
 	c.Family("encode", c.N(6000, 1000000), func(k *core.Case) {
 		c20Encode(k, gen.Msg(k.R, gen.Opt{AllowBig: k.Index%31 == 0, AllowEmpty: true}))
 	})
+	// determinism on a message that was decoded and then amended through the API (EAP-AKA' attributes added after reception)
+	c.Family("encode-amended-decoded", c.N(3000, 300000), func(k *core.Case) {
+		a := gen.AKAWith(k.R, 1, k.R.Intn(16))
+		for x := len(a.Attrs) - 1; x > 0; x-- {
+			y := k.R.Intn(x + 1)
+			a.Attrs[x], a.Attrs[y] = a.Attrs[y], a.Attrs[x]
+		}
+		m := gen.Header(k.R)
+		m.Payloads = []abs.Payload{{Kind: abs.PEAP, EAP: &abs.EAP{Code: 1, ID: k.R.Byte(), Method: &abs.Method{Type: abs.MAkaPrime, AKA: a}}}}
+		if k.R.Bool() {
+			m.Payloads = append(m.Payloads, gen.Notify(k.R))
+		}
+		wire, err := ref.EncodeMsg(m, &ref.Opts{AKAOrder: true})
+		if err != nil {
+			return
+		}
+		lm, derr, pn := libDecodeKeep(wire)
+		if derr != nil || pn != nil {
+			return
+		}
+		ap, ok := lm.Payloads[0].(*message.PayloadEap).EapTypeData.(*eap.EapAkaPrime)
+		if !ok {
+			return
+		}
+		for _, t := range []uint8{abs.ATKdfInput, abs.ATKdf, abs.ATCheckcode, abs.ATMac, abs.ATRes, abs.ATAutn, abs.ATRand} {
+			if k.R.Chance(2, 3) {
+				n := map[uint8]int{abs.ATKdfInput: k.R.Intn(40), abs.ATKdf: 2, abs.ATCheckcode: 20, abs.ATMac: 16, abs.ATRes: 8, abs.ATAutn: 16, abs.ATRand: 16}[t]
+				ap.SetAttr(eap.EapAkaPrimeAttrType(t), k.R.Bytes(n))
+			}
+		}
+		k.Eval(1)
+		before := bridge.ObserveMsg(lm).JSON()
+		first, err := lm.Encode()
+		if err != nil {
+			return
+		}
+		for i := 0; i < 40; i++ {
+			again, err := lm.Encode()
+			if err != nil || !bytes.Equal(first, again) {
+				k.Violate("nondeterministic", "repeated-encode-differs/amended-decoded-message", fmt.Sprintf("Encode #%d of the unmodified message differs from the first", i+2),
+					M{"received": core.Hex(wire), "first": core.Hex(first), "other": core.Hex(again)})
+				return
+			}
+		}
+		if bridge.ObserveMsg(lm).JSON() != before {
+			k.Violate("impure", "encode-alters-message", "", M{"received": core.Hex(wire)})
+			return
+		}
+		k.Count("amended_decoded_encoded_x41", 1)
+		k.Distinct("amended|" + bridge.ObserveMsg(lm).Shape())
+	})
 	c.Family("protect", c.N(1800, 300000), func(k *core.Case) {
 		c20Protect(k, gen.Msg(k.R, gen.Opt{Protected: true, AllowEmpty: true, MaxPayloads: 4}), ref.Suites[k.Index%9])
 	})
@@ -383,7 +435,7 @@ func c20(c *core.Ctx) {
 		})
 		c.Require("poisoned_buffer_cases")
 	}
-	c.Require("encode_pure", "protect_pure", "decoded_and_scribbled_own-encoding", "decoded_and_scribbled_unprotected", "decoded_and_scribbled_mutated")
+	c.Require("encode_pure", "protect_pure", "amended_decoded_encoded_x41", "decoded_and_scribbled_own-encoding", "decoded_and_scribbled_unprotected", "decoded_and_scribbled_mutated")
 }
 
 var _ = security.GenerateRandomUint8
